@@ -5,11 +5,11 @@ open Mitum Mitum.States
 
 def st? : String → Option S
   | "ST" => some .stopped | "BO" => some .booting | "JO" => some .joining | "CO" => some .consensus
-  | "SY" => some .syncing | "HA" => some .handover | "BR" => some .broken | _ => none
+  | "SY" => some .syncing | "HA" => some .handover | "BR" => some .broken | "XX" => some .unknown | _ => none
 
 def stStr : S → String
   | .stopped => "ST" | .booting => "BO" | .joining => "JO" | .consensus => "CO"
-  | .syncing => "SY" | .handover => "HA" | .broken => "BR"
+  | .syncing => "SY" | .handover => "HA" | .broken => "BR" | .unknown => "XX"
 
 def out? (s : String) : Option Out :=
   if s = "ok" then some .ok else if s = "err" then some .err else if s = "ign" then some .ignore
@@ -77,7 +77,7 @@ def stepC09 (ts : List String) : String :=
         | ["ck", f, n] =>
           match st? f, st? n with
           | some f, some n =>
-            let res := match check m.allowed m.cur f n with | .ok => "ok" | .ignore => "ignore" | .redirect r => s!"redirect:{stStr r}"
+            let res := match check m.allowed m.cur f n with | .ok => "ok" | .ignore => "ignore" | .redirect r => s!"redirect:{stStr r}" | .error => "error"
             (m, acc.2 ++ [res])
           | _, _ => (m, acc.2 ++ ["bad-op"])
         | ["al", v] => ({ m with allowed := v = "1" }, acc.2 ++ [boolStr (m.allowed != (v = "1"))])
